@@ -141,8 +141,9 @@ class _LogBuf(list):
 class Sim:
     def __init__(self, script: list[tuple], prefix: list[int], mode: str = "conn", horizon: float = 40.0,
                  ev_window: int = 40, max_faults: int = 99, rnd=None, probs: dict | None = None,
-                 early_events: bool = False):
+                 early_events: bool = False, min_time: float = 0.0, fault_until: float = 1e9):
         self.script = list(script)
+        self.min_time = min_time
         self.ch = Choices(prefix, rnd, probs)
         self.early_events = early_events
         self.acked: list[int] = []
@@ -174,14 +175,21 @@ class Sim:
         self.ev_window = ev_window
         self._script_pos = 0
         self.quiescent = False
+        self.frozen = False
+        self.result: Result | None = None
+        self.fault_until = fault_until
         self.handler_of: dict[Any, int] = {}
 
     # ---- logging -------------------------------------------------------------------
     def log(self, tok: str) -> None:
-        self.tokens.append(tok)
+        if not self.frozen:
+            self.tokens.append(tok)
 
     def mid(self, m) -> int:
         return self.ids[id(m)]
+
+    def faults_allowed(self) -> bool:
+        return self.faults < self.max_faults and self.loop.time() < self.fault_until
 
     def note_seq(self, m) -> int:
         i = self.mid(m)
@@ -229,16 +237,8 @@ class Sim:
                 self.errors.append(f"teardown:{type(e).__name__}")
             loop.close()
             asyncio.set_event_loop(None)
-        r = self.runner
-        return Result(tokens=merge_batches(self.tokens), choices=self.ch.log, produced=self.produced,
-                      attempts=self.attempts, received=self.received, buffered_ids=self.buffered_ids,
-                      stranded=self.stranded, final_state=r._state,
-                      final_buffer=[self.mid(m) for m in r._message_buffer],
-                      final_inflight=[e["id"] for e in self.disp.queue],
-                      quiescent=self.quiescent, t_end=loop.time(), errors=self.errors, seqs=self.seqs,
-                      iterations=loop.iteration, acked=self.acked, cancelled=self.cancelled_ids,
-                      rejected=self.rejected_ids, seq_ctr=self.disp._sequence_number,
-                      limbo=sorted(self.failed_open), faults=self.faults)
+        assert self.result is not None
+        return self.result
 
     async def _main(self):
         loop = self.loop
@@ -257,7 +257,8 @@ class Sim:
             r = self.runner
             calm = (r._state in ("Connected", "Reconnected") and not r._message_buffer and not self.disp.queue
                     and self._script_pos >= len(self.script) and self.ch.exhausted and not self.disp.broken
-                    and (self.ch.rnd is None or self.faults >= self.max_faults or loop.time() > self.horizon / 2))
+                    and loop.time() >= self.min_time
+                    and (self.ch.rnd is None or not self.faults_allowed()))
             if calm:
                 if done_at is None:
                     done_at = loop.time() + 0.4
@@ -267,6 +268,18 @@ class Sim:
             else:
                 done_at = None
         loop.on_iteration = None
+        r = self.runner
+        self.result = Result(tokens=merge_batches(self.tokens), choices=list(self.ch.log), produced=self.produced,
+                             attempts=[dict(a) for a in self.attempts], received=list(self.received),
+                             buffered_ids=list(self.buffered_ids), stranded=self.stranded, final_state=r._state,
+                             final_buffer=[self.mid(m) for m in r._message_buffer],
+                             final_inflight=[e["id"] for e in self.disp.queue],
+                             quiescent=self.quiescent, t_end=loop.time(), errors=self.errors,
+                             seqs={k: list(v) for k, v in self.seqs.items()},
+                             iterations=loop.iteration, acked=list(self.acked), cancelled=list(self.cancelled_ids),
+                             rejected=list(self.rejected_ids), seq_ctr=self.disp._sequence_number,
+                             limbo=sorted(self.failed_open), faults=self.faults)
+        self.frozen = True   # what happens during teardown (cancelling every task) is not part of the run
 
     def _iteration_hook(self):
         r = self.runner
@@ -439,7 +452,7 @@ def _dispatcher_class():
 
         async def connect_async(self):
             sim = self.sim
-            fail = sim.faults < sim.max_faults and sim.ch.pick("conn", 2) == 1
+            fail = sim.faults_allowed() and sim.ch.pick("conn", 2) == 1
             await asyncio.sleep(0.02)
             if fail:
                 sim.faults += 1
@@ -478,7 +491,7 @@ def _dispatcher_class():
             if self.broken:
                 outcome, slow = "fail", False
             else:
-                dom = 3 if sim.faults < sim.max_faults else 1
+                dom = 3 if sim.faults_allowed() else 1
                 c = sim.ch.pick("send", 4 if dom == 3 else 2)
                 if dom == 1:
                     outcome, slow = "ok", c == 1
@@ -489,9 +502,11 @@ def _dispatcher_class():
                     sim.faults += 1
                     if sim.mode == "conn":
                         self.broken = True
-                        for e in self.queue:          # everything still in flight is lost with the connection
+                        for e in self.queue:          # the channel closes: every pending call fails, now
                             if e["outcome"] == "ok":
                                 e["outcome"] = "fail"
+                            e["due"] = now
+                        slow = False
             fut = sim.loop.create_future()
             entry = {"id": i, "seq": seq, "fut": fut, "due": now + (0.15 if slow else 0.0), "outcome": outcome,
                      "att": len(sim.attempts)}
@@ -503,6 +518,8 @@ def _dispatcher_class():
             try:
                 ok = await fut
             except asyncio.CancelledError:
+                if sim.frozen:
+                    raise
                 if entry in self.queue:
                     self.queue.remove(entry)
                     sim.attempts[entry["att"]]["outcome"] = "cancel:" + entry["outcome"]
